@@ -12,6 +12,7 @@ package sym
 
 import (
 	"fmt"
+	"strings"
 	"runtime"
 	"sync"
 )
@@ -204,6 +205,36 @@ func (t *threads) killAll() {
 
 func (m *Machine) mutexOp(fr *frame, name string, mu value) value {
 	p := mu.(*value)
+	if strings.HasSuffix(name, ".TryLock") || strings.HasSuffix(name, ".TryRLock") {
+		// never blocks: true and the lock when it is free, false otherwise
+		if m.thr == nil || len(m.thr.list) < 2 {
+			held, _ := m.models["mutex"].(map[*value]int)
+			if held == nil {
+				held = map[*value]int{}
+				m.models["mutex"] = held
+			}
+			if held[p] != 0 {
+				return m.tt.False
+			}
+			held[p] = 1
+			return m.tt.True
+		}
+		t := m.thr
+		if held, _ := m.models["mutex"].(map[*value]int); held != nil {
+			for k, v := range held {
+				if v == 1 && t.held[k] == nil {
+					t.held[k] = t.list[0]
+				}
+			}
+			delete(m.models, "mutex")
+		}
+		m.yield("trylock")
+		if t.held[p] != nil {
+			return m.tt.False
+		}
+		t.held[p] = t.cur
+		return m.tt.True
+	}
 	if m.thr == nil || len(m.thr.list) < 2 {
 		held, _ := m.models["mutex"].(map[*value]int)
 		if held == nil {
